@@ -377,6 +377,21 @@ fn base_oracles(cfg: &Cfg, model: &Model, item: &Item, opts: &RunOpts, sink: &mu
 }
 
 pub fn push_finding(sink: &mut Sink, cfg: &Cfg, fd: &Finding, item: &Item, k: usize, stage: &str) {
+    // C07's quantifier: on every transition of the connection search "the reply (or silence) equals
+    // that of the reference connection model"; an application-level mismatch on a TCP data segment
+    // there (answered / not answered against the model's stream state) is therefore also reported
+    // under C07 (matcher events of the listed finding D12 keep their own keys)
+    if stage.starts_with("bfs-c07") && fd.prop != "C07" && (fd.key.starts_with("tcp-answered:") || fd.key.starts_with("unanswered:")) {
+        sink.violation(Violation {
+            prop: "C07".into(),
+            key: format!("connection-model:{}", fd.key),
+            what: format!("reply differs from the reference connection model: {}", fd.what),
+            cfg: cfg.clone(),
+            cmds: item.cmds[..=k].to_vec(),
+            idx: item.idx,
+            stage: stage.to_string(),
+        });
+    }
     sink.violation(Violation {
         prop: fd.prop.to_string(),
         key: fd.key.clone(),
